@@ -53,18 +53,29 @@ fn wire_poly(len: usize, st: &mut u64, p_hint: u128) -> Vec<Field128> {
 
 /// Bare gadget: ParallelSumMultithreaded::eval_poly vs ParallelSum::eval_poly.
 fn gadget_case(run: &Run, pool: &rayon::ThreadPool, chunks: usize, calls: usize, n_logical: usize, max_exec: u64, bound: u32) {
+    gadget_case_g(run, pool, "Mul", Mul::new(calls), chunks, calls, n_logical, max_exec, bound)
+}
+
+/// The same for any inner gadget (the type is generic in it): `PolyEval` has arity 1 and degree d.
+#[allow(clippy::too_many_arguments)]
+fn gadget_case_g<G>(run: &Run, pool: &rayon::ThreadPool, gname: &str, inner: G, chunks: usize, calls: usize, n_logical: usize, max_exec: u64, bound: u32)
+where
+    G: 'static + Gadget<Field128> + Clone + Send + Sync,
+{
     let p = (1 + calls).next_power_of_two();
-    let mut st = run.seed ^ fnv(format!("{chunks}/{calls}").as_bytes());
-    let inp: Vec<Vec<Field128>> = (0..2 * chunks).map(|i| if i % 5 == 4 { vec![Field128::zero(); p] } else { wire_poly(p, &mut st, 0) }).collect();
-    let serial: ParallelSum<Field128, Mul> = ParallelSum::new(Mul::new(calls), chunks);
-    let multi: ParallelSumMultithreaded<Field128, Mul> = ParallelSumMultithreaded::new(Mul::new(calls), chunks);
-    let mut want = vec![Field128::zero(); 2 * p];
-    serial.eval_poly(&mut want, &inp).unwrap();
+    let (arity, degree) = (inner.arity(), inner.degree());
+    let out_len = (degree * (p - 1) + 1).next_power_of_two();
+    let mut st = run.seed ^ fnv(format!("{gname}/{chunks}/{calls}").as_bytes());
+    let inp: Vec<Vec<Field128>> = (0..arity * chunks).map(|i| if i % 5 == 4 { vec![Field128::zero(); p] } else { wire_poly(p, &mut st, 0) }).collect();
+    let serial: ParallelSum<Field128, G> = ParallelSum::new(inner.clone(), chunks);
+    let multi: ParallelSumMultithreaded<Field128, G> = ParallelSumMultithreaded::new(inner, chunks);
+    let mut want = vec![Field128::zero(); out_len];
+    serial.eval_poly(&mut want, &inp).expect("serial ParallelSum::eval_poly");
     let mut traces: HashSet<Vec<(usize, bool)>> = HashSet::new();
     let mut bad: Option<(Vec<(usize, bool)>, String)> = None;
     let stats = explore(bound, max_exec, |ch| {
         // output buffer pre-filled with junk: the gadget must overwrite all of it
-        let mut out = vec![Field128::from(0xDEADu128); 2 * p];
+        let mut out = vec![Field128::from(0xDEADu128); out_len];
         let (res, trace) = with_oracle(pool, n_logical, ch, || catch(|| multi.eval_poly(&mut out, &inp).map_err(|e| e.to_string())));
         match res {
             Ok(Ok(())) => {
@@ -87,11 +98,12 @@ fn gadget_case(run: &Run, pool: &rayon::ThreadPool, chunks: usize, calls: usize,
     if stats.truncated {
         run.count("truncated_explorations", 1);
     }
-    run.distinct_many(traces.iter().map(|t| fnv(format!("g/{chunks}/{calls}/{n_logical}/{:?}", t).as_bytes())));
+    run.distinct_many(traces.iter().map(|t| fnv(format!("g/{gname}/{chunks}/{calls}/{n_logical}/{:?}", t).as_bytes())));
     if let Some((trace, why)) = bad {
-        run.fail(&format!("gadget/chunks={chunks}/calls={calls}/threads={n_logical}"), &format!("ParallelSumMultithreaded(chunks={chunks}, calls={calls}) with {n_logical} logical threads: {why}; steal pattern {:?}", trace), json!({"chunks": chunks, "calls": calls, "threads": n_logical, "steals": trace}));
+        let key = if gname == "Mul" { format!("gadget/chunks={chunks}/calls={calls}/threads={n_logical}") } else { format!("gadget/{gname}/chunks={chunks}/calls={calls}/threads={n_logical}") };
+        run.fail(&key, &format!("ParallelSumMultithreaded<{gname}>(chunks={chunks}, calls={calls}) with {n_logical} logical threads: {why}; steal pattern {:?}", trace), json!({"inner": gname, "chunks": chunks, "calls": calls, "threads": n_logical, "steals": trace}));
     }
-    if chunks == 8 && calls == 3 {
+    if chunks == 8 && calls == 3 && gname == "Mul" {
         let mut ex: Vec<&Vec<(usize, bool)>> = traces.iter().collect();
         ex.sort();
         run.sample(json!({"subject": "ParallelSumMultithreaded", "chunks": chunks, "calls": calls, "logical_threads": n_logical, "schedules": stats.executions, "distinct_split_trees": traces.len(), "example_steal_pattern": ex[ex.len() / 2]}));
@@ -223,7 +235,7 @@ fn scan_assumption(run: &Run) {
 
 fn main() {
     let run = Run::from_args("C14", Level::ModelChecking);
-    run.rule("schedules = all 0/1 answer sequences to 'was this right child stolen?' in rayon's bridge_producer_consumer (vendored copy, oracle-driven), for logical pool sizes {1,2,3,4,8,16} x chunk counts 1..8 (thorough ..12) x gadget calls {1,2,3,7}, for the bare ParallelSumMultithreaded gadget and for Prio3{SumVec,Histogram,MultihotCountVec}Multithreaded sharding (+ verification); executed on a real 1-thread pool; states = distinct split trees (decision traces), transitions = executions; oracle = byte equality with the serial gadget / serial type under the same tape");
+    run.rule("schedules = all 0/1 answer sequences to 'was this right child stolen?' in rayon's bridge_producer_consumer (vendored copy, oracle-driven), for logical pool sizes {1,2,3,4,8,16} x chunk counts 1..8 (thorough ..12) x gadget calls {1,2,3,7}, for the bare ParallelSumMultithreaded gadget (inner gadget Mul, and PolyEval of degree 1..3 whose arity differs from its degree) and for Prio3{SumVec,Histogram,MultihotCountVec}Multithreaded sharding (+ verification); executed on a real 1-thread pool; states = distinct split trees (decision traces), transitions = executions; oracle = byte equality with the serial gadget / serial type under the same tape");
     let q = run.quick();
     let pool = rayon::ThreadPoolBuilder::new().num_threads(1).build().unwrap();
     let max_exec: u64 = if q { 10_000 } else { 200_000 };
@@ -248,6 +260,17 @@ fn main() {
                 continue;
             }
             gadget_case(&run, &pool, chunks, 1, n, max_exec, big_bound);
+        }
+    }
+    // other inner gadgets: PolyEval (arity 1) of degree 2, 3 and 1 — arity and degree differ
+    for (gname, coeffs) in [("PolyEval(deg2)", vec![3u128, 0, 1]), ("PolyEval(deg3)", vec![0u128, 5, 0, 2]), ("PolyEval(deg1)", vec![7u128, 1])] {
+        for chunks in if q { vec![1usize, 2, 3, 5, 8] } else { (1..=10).collect() } {
+            for calls in [1usize, 3] {
+                for &n in &[1usize, 2, 4, 16] {
+                    let inner = prio::flp::gadgets::PolyEval::new(coeffs.iter().map(|c| Field128::from(*c)).collect(), calls);
+                    gadget_case_g(&run, &pool, gname, inner, chunks, calls, n, max_exec, u32::MAX);
+                }
+            }
         }
     }
     run.note("deviation_bounded_cases", json!({"chunks": [33, 64, 65, 100, 129, 257], "max_steals": big_bound}));
